@@ -290,13 +290,17 @@ def assemble(repo, template_text, canary_set=None):
                 # R7 region slicing: wrap region text as a fn
                 src, lo, hi, item, kind2 = rsx.resolve(repo, b.address)
                 rw = {}
-                body = rsx.apply_token_rewrites(src.toks, lo, hi, set(b.rules), rw)
                 raw = src.text[src.toks[lo].start:src.toks[hi - 1].end]
-                body = _apply_subst(body, b.subst, rw)
+                region = _apply_subst(raw, b.subst, rw)
                 rsx._count(rw, "R7.region_wrapped_as_fn")
                 sig = "\n".join(b.wrap)
-                ins = "".join("\n" + t + "\n" for pos, t in inserts if pos == "body_start")
-                text = sig + "\n" + spec + "{\n" + ins + body + "\n}\n"
+                # weave on a synthetic fn made of the wrap signature + the verbatim region, so that loop
+                # contracts and structural inserts work exactly as for whole fns
+                syn = rsx.Source("<region of %s>" % src.path, text=sig + "\n{\n" + region + "\n}\n")
+                its = [it for it in rsx.parse_items(syn.toks, 0, len(syn.toks)) if it.kind == "fn"]
+                if len(its) != 1:
+                    raise rsx.ExtractError("wrap signature of %s does not parse as one fn" % b.address)
+                text = rsx.weave_fn(syn, its[0], set(b.rules), rw, spec=spec or None, loops=loops, inserts=inserts)
                 ex = rsx.Extracted(b.address, src.path, src.line_of(lo), raw, text, rw)
                 fn_name = b.name
             else:
